@@ -113,7 +113,8 @@ static Geom gen_io_geom(vrt::Rng &r, bool mesh, bool with_color, bool keep_dups 
   };
   addf(GeometryAttribute::POSITION, 3, true);
   if (r.coin()) addf(GeometryAttribute::NORMAL, 3, r.coin());
-  if (r.coin() && !with_color) addf(GeometryAttribute::TEX_COORD, 2, r.coin());
+  // (PLY: the writer stores texture coordinates of a mesh as a per-face list, the reader skips the list -- the faces behind it must still be read)
+  if (r.coin() && (!with_color || mesh)) addf(GeometryAttribute::TEX_COORD, 2, r.coin());
   if (with_color && r.coin()) {
     const int nc = r.range(3, 4);
     AttDesc d{GeometryAttribute::COLOR, DT_UINT8, nc, false, true, np};
